@@ -8,7 +8,7 @@ import z3
 from contracts import repair as RC
 from contracts import zones as ZC
 from verif import extract
-from verif.common import Ctx, Ob, Outcome, Witness
+from verif.common import Ctx, Ob, Outcome, Witness, shape_verdict
 from verif.extract import ExtractionError
 from verif.pyvc import loopstep
 from verif.pyvc.adapter import contract_ob
@@ -32,6 +32,47 @@ LEXER = "octave_mcp.core.lexer"
 FUNCS = [f"{LEXER}:_normalize_with_fence_detection", f"{LEXER}:_evaluate_fence_line", f"{LEXER}:tokenize", "octave_mcp.core.parser:Parser.parse_literal_zone", "octave_mcp.core.emitter:emit_assignment", "octave_mcp.core.emitter:emit_block", "octave_mcp.core.repair:repair_value"]
 
 
+def probe_zone_normaliser():
+    """the real _normalize_with_fence_detection on texts with NFD inside and outside zones, nested shorter fences, an unterminated zone"""
+    import unicodedata
+
+    from octave_mcp.core.lexer import LexerError, _normalize_with_fence_detection
+
+    nfd = "e\u0301"
+    bad = []
+    for lines in (["a" + nfd, "```", nfd + "\t", "``" + nfd, "```", nfd], ["  ````py", "```" + nfd, "x", "  ````", "K::" + nfd], ["```", "```"], ["x"], [""]):
+        text = "\n".join(lines)
+        out, spans = _normalize_with_fence_detection(text)
+        got = out.split("\n")
+        inside = False
+        exp = []
+        marker = None
+        for ln in lines:
+            st = ln.strip()
+            if not inside and st.startswith("```") and "`" not in st.lstrip("`"):
+                inside, marker = True, st[: len(st) - len(st.lstrip("`"))]
+                exp.append(unicodedata.normalize("NFC", ln))
+            elif inside and st == marker:
+                inside = False
+                exp.append(unicodedata.normalize("NFC", ln))
+            elif inside:
+                exp.append(ln)
+            else:
+                exp.append(unicodedata.normalize("NFC", ln))
+        if got != exp:
+            bad.append(f"{text!r}: normalised to {out!r}")
+        for s0, e0, mk, _ in spans:
+            seg = out[s0:e0].split("\n")
+            if not (seg[0].strip().startswith(mk) and seg[-1].strip() == mk):
+                bad.append(f"{text!r}: span {s0}:{e0} does not run from an opening to its closing fence line")
+    try:
+        _normalize_with_fence_detection("```\nx")
+        bad.append("an unterminated zone is accepted")
+    except LexerError:
+        pass
+    return bool(bad), "; ".join(bad[:2]) or "probe: content lines untouched, other lines NFC, spans fence-to-fence"
+
+
 def ob_step_frame(ctx: Ctx) -> Outcome:
     """The inductive argument's side conditions, read from the AST: initial state satisfies the invariant, the loop
     iterates `enumerate(content.split('\\n'), start=1)`, output lists are append-only, and the function returns
@@ -45,11 +86,11 @@ def ob_step_frame(ctx: Ctx) -> Outcome:
     want = {"in_fence": "False", "current_fence_marker": "None", "current_info_tag": "None", "output_parts": "[]", "fence_spans": "[]", "output_offset": "0"}
     for k, v in want.items():
         if init.get(k) != v:
-            return Outcome.refuted("ast-shape", [Witness(what=f"initial state: {k} = {init.get(k)} (the invariant's base case needs {v})", key=f"init.{k}", input=init)], count=len(want))
+            return shape_verdict("ast-shape", [f"initial state: {k} = {init.get(k)} (the invariant's base case needs {v})"], probe_zone_normaliser, len(want), {"runner": "props.C05:probe_zone_normaliser", "args": {}})
     facts.append("base case: in_fence=False, marker=None, tag=None, output_parts=[], fence_spans=[], output_offset=0")
     probs = loopstep.append_only(st, ["output_parts", "fence_spans"])
     if probs:
-        return Outcome.refuted("ast-shape", [Witness(what=f"output list is not append-only: {p}", key="append-only", input=p) for p in probs], count=len(want) + 1)
+        return shape_verdict("ast-shape", [f"output list is not append-only: {p}" for p in probs], probe_zone_normaliser, len(want) + 1, {"runner": "props.C05:probe_zone_normaliser", "args": {}})
     facts.append("output_parts and fence_spans are only appended to")
     loop = st.loop
     if ast.unparse(loop.iter) != "enumerate(lines, start=1)" or ast.unparse(loop.target) != "(line_num, line)":
@@ -60,7 +101,7 @@ def ob_step_frame(ctx: Ctx) -> Outcome:
     facts.append("the loop visits content.split('\\n') in order, once")
     tail = st.owner.body[st.owner.body.index(loop) + 1:]
     if not tail or not isinstance(tail[-1], ast.Return) or ast.unparse(tail[-1].value) != "('\\n'.join(output_parts), fence_spans)":
-        return Outcome.refuted("ast-shape", [Witness(what=f"the function no longer returns ('\\n'.join(output_parts), fence_spans): {ast.unparse(tail[-1])[:80] if tail else 'nothing'}", key="return", input="")], count=len(want) + 3)
+        return shape_verdict("ast-shape", [f"the function no longer returns ('\\n'.join(output_parts), fence_spans): {ast.unparse(tail[-1])[:80] if tail else 'nothing'}"], probe_zone_normaliser, len(want) + 3, {"runner": "props.C05:probe_zone_normaliser", "args": {}})
     for stt in tail[:-1]:
         if not (isinstance(stt, ast.If) and ast.unparse(stt.test) == "in_fence" and isinstance(stt.body[-1], ast.Raise)):
             return Outcome.undecided("ast-shape", f"statement between loop and return: {ast.unparse(stt)[:60]}")
